@@ -15,6 +15,7 @@ import (
 
 var c19Extras = []struct{ name, text string }{
 	{"string-escapes", "fn main() {\n    println(\"tab\\there\", \"nl\\nx\", \"q\\\"q\", \"bs\\\\b\", \"cr\\rz\", 'single', \"uni\\u00e9\", \"a'b\");\n}\n"},
+	{"control-characters-in-strings", "fn main() {\n    println(\"a\\x07b\", \"c\\x0bd\", \"e\\x0cf\", \"g\\x01h\", \"i\\x1fj\", \"k\\x7fl\", \"m\\x00n\", \"o\\x08p\", \"q\\x1br\");\n    let s = \"\\x07\\x0b\\x0c\";\n    println(s.len());\n}\n"},
 	{"pub-items", "pub let g = 1;\npub type T = { a: int };\npub fn f() -> int { g }\nfn main() { println(f()); }\n"},
 	{"event-fn", "import trigger minute from triggers;\nevent fn cb(elapsed: int) { println(\"cb\"); }\nfn main() { trigger cb at minute(1); println(\"x\"); }\n"},
 	{"singleton-and-impl-free", "$S = { n: int, s: str };\nfn get(self: $S) -> int { self.n }\nfn main() { $S.n = 4; println(get(), $S.s); }\n"},
